@@ -197,9 +197,13 @@ def key_depth(k) -> int:
 class Concrete:
     """Concrete spelling of one abstract mailbox and of programs asked in it."""
 
-    def __init__(self, mbox, rng: random.Random):
+    def __init__(self, mbox, rng: random.Random, backend: str = 'dict'):
         self.mbox = mbox
         self.rng = rng
+        # dict numbers a fresh INBOX from 101, maildir from 1; maildir stores
+        # LF line ends and reports that size (C03), which SEARCH must agree with
+        self.first_uid = 101 if backend == 'dict' else 1
+        self.eol = 2 if backend == 'dict' else 1
         self.tok = dict(zip(('t1', 't2'), rng.choice(TOKEN_POOL)))
         self.base = rng.choice(BASES)
         self.messages: dict[int, bytes] = {}      # uid -> literal
@@ -344,17 +348,20 @@ class Concrete:
                 body = padlines + blines
             return ('\r\n'.join(h) + '\r\n\r\n' + '\r\n'.join(body) + '\r\n').encode()
 
-        need = target - len(assemble([]))
-        if need < 2:
+        def stored(b: bytes) -> int:    # the size the store counts
+            return len(b) - (2 - self.eol) * b.count(b'\r\n')
+
+        need = target - stored(assemble([]))
+        if need < 4:
             raise ValueError('SIZE0 too small')
         pad = []
-        while need > 74:               # a pad line of k dashes costs k + 2 octets
+        while need > 72 + self.eol:     # a pad line of k dashes costs k + eol octets
             pad.append('-' * 70)
-            need -= 72
-        pad.append('-' * (need - 2))   # 2 <= need <= 74
+            need -= 70 + self.eol
+        pad.append('-' * (need - self.eol))
         msg = assemble(pad)
-        if len(msg) != target:
-            raise ValueError(f'padding failed {len(msg)} != {target}')
+        if stored(msg) != target:
+            raise ValueError(f'padding failed {stored(msg)} != {target}')
         low = msg.lower()
         present = set(toks)
         for ws in m['hdr'].values():
@@ -392,14 +399,15 @@ class Concrete:
         mbox = self.mbox
         uids = [m['uid'] for m in mbox]
         nold = sum(1 for m in mbox if 'Recent' not in m['flags'])
-        u_old = uids[nold - 1] if nold else 100
-        maxuid = uids[-1] if uids else 100
+        first = self.first_uid
+        u_old = uids[nold - 1] if nold else first - 1
+        maxuid = uids[-1] if uids else first - 1
         fillers = []
         script = []
         # an earlier session that had INBOX selected (and left it): what is
         # there now is no longer \\Recent for anybody
         prime = [('p', b'CREATE Other'), ('p', b'SELECT INBOX'), ('p', b'SELECT Other')]
-        for u in range(101, maxuid + 1):
+        for u in range(first, maxuid + 1):
             if u == u_old + 1 and nold:
                 script += prime
             if u in self.appends:
@@ -515,8 +523,8 @@ class PreconditionFailed(Exception):
 class Server:
     """One World; sessions are connected and logged in on first use."""
 
-    def __init__(self):
-        self.w = World('dict', demo=False, users={'user1': 'pass1'},
+    def __init__(self, backend: str = 'dict'):
+        self.w = World(backend, users={'user1': 'pass1'},
                        config_kw={'bad_command_limit': None})
         self.log: list = []
 
@@ -570,7 +578,7 @@ def run_build(srv: Server, conc: Concrete, script) -> None:
     """Run the build script and verify that session 'a' really has the
     abstract view (otherwise nothing can be concluded: machinery)."""
     mbox = conc.mbox
-    nexpected = 100
+    nexpected = conc.first_uid - 1
     for sess, line in script:
         out = srv.cmd(sess, line)
         resps = rp.parse_stream(out)
